@@ -2,7 +2,7 @@
     stay Coq datatypes; no Extract Constant). Run coqc from the ocaml/ directory. *)
 Require Extraction.
 Require Import ExtrOcamlBasic.
-From IAVL Require Import Bytes Varint Sha256 Tree VMap MTree KV Iter ExportImport Codec Diff Store Ics23 VersionFacts PruneAlgo FastLife Discover Crash DbImage Memo.
+From IAVL Require Import Bytes Varint Sha256 Tree VMap MTree KV Iter ExportImport Codec Diff Store Ics23 VersionFacts PruneAlgo FastLife Discover Crash DbImage Memo NodeCache Flusher.
 
 Definition m_step := MTree.step sha256.
 Definition m_init := MTree.init_state.
@@ -33,4 +33,5 @@ Extraction "model.ml" m_step m_init bcmp sha256 uvarint_enc uvarint_dec varint_e
   fstep_sha FastLife.finit FastLife.enable_if_needed Discover.discovered_available
   commit_node_ops_sha Crash.recover Crash.image Store.rollback_ops Store.rebuild_ops Store.apply_ops
   DbImage.encode_image DbImage.decode_image
-  memo_step_sha Memo.memo_init.
+  memo_step_sha Memo.memo_init
+  NodeCache.coherentb NodeCache.stale_keys Flusher.segs Flusher.fl_batches Flusher.cut_positions.
